@@ -110,7 +110,7 @@ def ev_const(case, rec):
     rec.sample({'published_ellipsoids': cfg.PUBLISHED_ELL, 'published_projections': cfg.PUBLISHED_PRJ})
 
 
-SUBCHECKS = [Sub('constants', gen_const, ev_const, chunk=1, floor=1, parallel=False), Sub('forward', gen, ev_row, chunk=24, floor=1000)]
+SUBCHECKS = [Sub('constants', gen_const, ev_const, chunk=1, floor=1, parallel=False), Sub('forward', gen, ev_row, chunk=24, floor=1000, envs=16)]
 
 
 def bounds(tier, seed):
